@@ -466,6 +466,8 @@ struct Run<'a> {
     rstore: Vec<i32>, // statistics only: the ticks the receiving Storage should hold, newest first
     cap_hits: u64,
     unknown_after_cap: u64,
+    seen_max: i64, // the newest tick of any message that has reached the Manager since its last reset
+    fresh_full: u64,
 }
 
 impl<'a> Run<'a> {
@@ -552,6 +554,7 @@ impl<'a> Run<'a> {
             Label::Z => {
                 self.mgr.reset();
                 self.rstore.clear();
+                self.seen_max = -1;
                 if self.mgr.ack_tick().is_some() {
                     self.fail("-", "Manager::reset() left an acknowledged tick behind".to_string());
                 }
@@ -653,6 +656,16 @@ impl<'a> Run<'a> {
         let base = match m {
             Msg::P { tick, dt, .. } | Msg::S { tick, dt, .. } | Msg::E { tick, dt } => tick.wrapping_sub(*dt),
         };
+        // progress (C13_full_snapshot_accepted): a one-message snapshot against the empty base, newer than
+        // everything the Manager has seen, must be accepted
+        let must_accept = !hostile && !self.tainted && base == -1 && matches!(m, Msg::S { .. }) && (tick as i64) > self.seen_max;
+        if must_accept {
+            self.fresh_full += 1;
+            if !matches!(out.fed, Fed::Acc(..)) {
+                self.fail("-", format!("tick {}: a full one-message snapshot newer than anything seen was not accepted", tick));
+            }
+        }
+        self.seen_max = self.seen_max.max(tick as i64);
         let res = match &out.fed {
             Fed::None_ => {
                 if ack_after != ack_before {
@@ -845,6 +858,8 @@ fn history(o: &mut Out, r: &mut Rng, p: &Profile, modelled: bool) {
         rstore: vec![],
         cap_hits: 0,
         unknown_after_cap: 0,
+        seen_max: -1,
+        fresh_full: 0,
     };
     let send_every = 1 + r.below(3) as usize; // main.rs: every second tick
     for round in 0..p.rounds {
@@ -1011,7 +1026,7 @@ fn history(o: &mut Out, r: &mut Rng, p: &Profile, modelled: bool) {
     let sig = format!("{}|{}", p.name, run.kinds.iter().cloned().collect::<Vec<_>>().join(","));
     let fails = std::mem::take(&mut run.fails);
     let (accepted, nparts, sent, tainted) = (run.accepted, run.nparts_max, run.hist.len(), run.tainted);
-    let (cap_hits, unknown_after_cap) = (run.cap_hits, run.unknown_after_cap);
+    let (cap_hits, unknown_after_cap, fresh_full) = (run.cap_hits, run.unknown_after_cap, run.fresh_full);
     let o = run.o;
     let id = if modelled {
         o.case(&case, &res, &sig)
@@ -1039,6 +1054,9 @@ fn history(o: &mut Out, r: &mut Rng, p: &Profile, modelled: bool) {
     }
     if cap_hits > 0 {
         o.count("histories-where-the-receiver-hit-the-100-cap");
+    }
+    for _ in 0..fresh_full {
+        o.oracle_checks += 1;
     }
     if unknown_after_cap > 0 {
         o.count("histories-with-UnknownSnap-after-the-cap");
